@@ -39,7 +39,7 @@ Lemma sneddon_in_contact E R nu cp bl x : 0 < cp - x ->
   = 4 / 3 * E / (1 - nu ^ 2) * sqrt R * series_part R (cp - x) + bl.
 Proof.
   intros H. unfold m_sneddon_spher_approx, series_part. cbv zeta.
-  destruct (Rlt_dec 0 (cp - x)); [|lra]. ring.
+  destruct (Rlt_dec 0 (cp - x)); [|lra]. unfold Rdiv. ring.
 Qed.
 
 Lemma sneddon_off_contact E R nu cp bl x : cp - x <= 0 ->
